@@ -23,6 +23,17 @@ def check(pid, category, text, note, technique, design_ref, thorough=True):
         CHECKS[pid]["thorough_cmd"] = f"./check {pid} --tier thorough"
 
 
+check("C18", "exploration",
+      "Complete configuration product, each a real CLI run of src/lian/main.py (lang) in a scratch tree with sentinel "
+      "files: 10 (thorough 13) placements of -w relative to the input (disjoint, inside, equal, parent, symlink, relative, "
+      "omitted, custom name containing the default name, deep inside, sibling prefix, ...) x --force x file/dir input x "
+      "pre-existing foreign workspace content. Oracle: full filesystem snapshot diff (type, size, sha256, mode, link "
+      "target): nothing outside the effective workspace changes or appears, nothing inside disappears without --force, "
+      "bytes created <= 3 x (matching input + mock externs) + 1 MB, exit within 90 s without traceback.",
+      "Real processes and a real filesystem (tmpfs scratch). The effective workspace rule (<-w>/lian_workspace unless the "
+      "value contains the default name) is taken from the code; inputs inside the forced workspace are not generated.",
+      "exhaustive enumeration of configurations, filesystem snapshot oracle", "DESIGN.md §2 C18")
+
 check("C19", "model_checking",
       "Explicit-state BFS over the real PathManager: all add/remove histories (depth 4 over paths <=2, depth 3 "
       "over paths <=3; thorough depth 6/4/3 over paths <=2/3/4) with state deduplication on (model, trie shape); "
